@@ -132,7 +132,7 @@ def run_init(repo, shape, label):
     return me, st, tests
 
 
-def check_record(ctx, rule_s="R2-sanitised-or-finite", rule_r="R3-channel-routing"):
+def check_record(ctx, rule_s="R2-sanitised-or-finite", rule_r="R3-channel-routing", rule_c=None):
     repo = ctx.repo
     fn = repo.get(INIT); where = repo.where(INIT, fn)
     n = X.var("n")
@@ -153,6 +153,7 @@ def check_record(ctx, rule_s="R2-sanitised-or-finite", rule_r="R3-channel-routin
             ctx.ob(rule_r, f"{INIT}[{label}:mode]", VIOLATED if isinstance(iscsd, bool) else UNKNOWN,
                    f"{label} input is analysed as {'two-channel' if iscsd else 'single-channel'} ({iscsd!r})", where)
             continue
+        treat = {}       # channel -> set of (finiteness case, sanitised?) seen on its leaves
         for ci, attr in enumerate(("x1", "x2") if two else ("x1",)):
             v = me.attrs.get(attr)
             c = f"{INIT}[{label}:{attr}]"
@@ -182,6 +183,7 @@ def check_record(ctx, rule_s="R2-sanitised-or-finite", rule_r="R3-channel-routin
                 else:
                     ctx.violated(rule_r, tagc, f"self.{attr}[j] is {b!r}; for a {label} input channel {ci + 1} must be {raw!r}", where, lhs=b, rhs=raw)
                     continue
+                treat.setdefault(attr, set()).add((fin, bool(b.eq(san))))
                 # sanitising
                 if rule_s is None: continue
                 if fin == "weak":
@@ -200,6 +202,12 @@ def check_record(ctx, rule_s="R2-sanitised-or-finite", rule_r="R3-channel-routin
                 else:
                     (ctx.holds if b.eq(san) else ctx.violated)(rule_s, tagc, "sanitised unconditionally" if b.eq(san) else
                                                               "record is neither tested finite nor sanitised on this path", where)
+        if rule_c is not None and two and "x1" in treat and "x2" in treat:
+            c_ = f"{INIT}[{label}:x1~x2]"
+            if treat["x1"] == treat["x2"]: ctx.holds(rule_c, c_, "both channels are views of the same (sanitised or finite) record", where)
+            else:
+                ctx.violated(rule_c, c_, f"the two channels are not treated alike: x1 {sorted(map(str, treat['x1']))} vs x2 {sorted(map(str, treat['x2']))} (finiteness case, sanitised): one channel is a view of "
+                             "the sanitised copy while the other still views the raw record, so a channel behaves differently in a pair than alone / in the other position", where)
         # the finiteness test must be on the stored record itself
         for t in (tests[:1] if rule_s is not None else []):
             a = getattr(t, "finite_of", None)
